@@ -247,6 +247,28 @@ def prime_modality_order(m, case, query):
     assert [o[0] for o in order] == [x[0] for x in mods]
 
 
+def prime_renamed_modalities(m, case, query):
+    """register the same modalities (same kinds and values, same order) under OTHER names, query, then replace them by the
+    case's own collection (R5-C08 / C09-m1: a data-matrix cache key that forgets the modality names serves the encoding
+    of the other names' columns)"""
+    mods = case.get("mods") or []
+    if not mods:
+        return
+    from lymph.modalities import Clinical, Pathological
+    tri = case["graph"]["base"] == 3
+    own = [x[0] for x in mods]
+    spare = [n for n in (case.get("table_mods") or []) if n not in own] + [n for n in ("ZA", "ZB", "ZC", "ZD") if n not in own]
+
+    def coll(names):
+        return {nm: (Pathological if k == "pathological" else Clinical)(sp, sn, tri) for nm, (_, sp, sn, k) in zip(names, mods)}
+    try:
+        m.replace_all_modalities(coll(spare[:len(mods)]))
+        query(m)
+    except Exception:  # noqa: BLE001
+        pass
+    m.replace_all_modalities(coll(own))
+
+
 def prime_inplace_modality_edit(m, case, query):
     """set other spec/sens values through the attribute setters, query, set the real values the same way"""
     for name, spec, sens, kind in case.get("mods") or []:
